@@ -131,9 +131,9 @@ PROPS["C19"] = {
 }
 
 PROPS["C20"] = {
-    "translators": ["syms2lean"],
-    "lean_targets": ["JediVerif.Properties.C20"],
-    "theorems": lambda: module_theorems("JediVerif.Properties.C20", "Jedi.C20"),
+    "translators": ["syms2lean", "consts", "asm2lean", "arm2lean"],
+    "lean_targets": ["JediVerif.Properties.C20"] + targets_if_exist("JediVerif.Properties.C20b"),
+    "theorems": lambda: module_theorems("JediVerif.Properties.C20", "Jedi.C20") + module_theorems("JediVerif.Properties.C20b", "Jedi.C20b"),
     "streams": lambda seed, tier: [
         {"cfg": c, "name": "threads:" + g, "kind": "threads", "lines": gen(g, seed, n, tier)}
         for c in cfgs(tier, ["asm"], ["asm", "portable64", "tsan"])
@@ -144,7 +144,7 @@ PROPS["C20"] = {
          **({"expand": (lambda ls, outs, _g=g, _seed=seed, _tier=tier: gen_ops.expand_unmarshal(ls, outs, __import__("random").Random("%s/%d/x" % (_g, _seed)), _tier))} if g == "marshal" else {})}
         for (g, n) in (("wkdibe", 2), ("marshal", 2))],
     "rule": "the same op lines are executed by 4 threads concurrently, each in a different order and twice; every thread must produce, line for line, the output of the sequential run (judged against the Spec)",
-    "not_modelled": "footprint premises of interleaving_eq_sequential come from object-code tables, not from a semantics of machine code; data races are only sampled (TSan in the thorough tier)",
+    "not_modelled": "for the compiled C++ the footprint premises of interleaving_eq_sequential come from object-code tables, not from a semantics of machine code, and data races are only sampled (TSan in the thorough tier); for the ASSEMBLY back ends (x86-64, AArch64, ARMv6-M) frame, locality and the two-core interleaving theorem are proved from the machine models for every program (C20b; atomicity = one model instruction, memory-ordering effects not modelled)",
 }
 
 def prop_modules(pid, extra=()):
